@@ -8,6 +8,7 @@ import (
 	"io"
 	"reflect"
 	"strings"
+	"sync"
 	"time"
 
 	"github.com/cloudwego/eino/compose"
@@ -164,8 +165,29 @@ type tgtHandle interface {
 	// inv: the middle node is an ordinary (invokable) node: in Stream execution the engine concatenates the
 	// converted chunks into one input value before it calls the node
 	build(mid, inv, sub bool, add func(wf wfAPI, succ *compose.WorkflowNode)) (*runFns, error)
+	// a second successor of the same predecessors: a stream-transparent consumer of type T that records every
+	// (converted) chunk it is handed and produces an int
+	tap(rec func(reflect.Value)) *compose.Lambda
 }
 type tgtOf[T any] struct{}
+
+func (tgtOf[T]) tap(rec func(reflect.Value)) *compose.Lambda {
+	return compose.TransformableLambda(func(ctx context.Context, in *schema.StreamReader[T]) (*schema.StreamReader[int], error) {
+		defer in.Close()
+		for {
+			c, err := in.Recv()
+			if errors.Is(err, io.EOF) {
+				return schema.StreamReaderFromArray([]int{0}), nil
+			}
+			if err != nil {
+				return nil, err
+			}
+			rv := reflect.New(reflect.TypeOf((*T)(nil)).Elem()).Elem()
+			rv.Set(reflect.ValueOf(&c).Elem())
+			rec(rv)
+		}
+	})
+}
 
 func (tgtOf[T]) build(mid, inv, sub bool, add func(wf wfAPI, succ *compose.WorkflowNode)) (*runFns, error) {
 	ctx := context.Background()
@@ -350,6 +372,12 @@ func fieldMapping(m Mapping, short bool) *compose.FieldMapping {
 
 // ------------------------------------------------------------------ one execution
 
+// the source values of one declaration (the last entry: the static values) in one compiled workflow
+// inv / twin: the values of the first request and their pristine twins; inv2 / twin2: of the second (same runnable)
+type built struct{ inv, twin, inv2, twin2 []reflect.Value }
+
+func (b built) all() []reflect.Value { return append(append([]reflect.Value(nil), b.inv...), b.inv2...) }
+
 type outcome struct {
 	Compile string   `json:"compile"` // accept | overlap | static | other | panic
 	CompMsg string   `json:"compile_msg,omitempty"`
@@ -373,6 +401,24 @@ type outcome struct {
 	Stream2  string `json:"stream2,omitempty"`
 	StrVals2 []*V   `json:"stream2_vals,omitempty"`
 	StrMsg2  string `json:"stream2_msg,omitempty"`
+	// the FIRST request once more on the same compiled runnable, after the consumer of the earlier results used them as
+	// scratch space (scribble): "" = not run
+	Rerun    string `json:"rerun,omitempty"`
+	RerunVal *V     `json:"rerun_val,omitempty"`
+	RerunMsg string `json:"rerun_msg,omitempty"`
+	// concurrent first requests on a freshly compiled runnable (execution 0 only; not part of key()): "" = not run or
+	// every call gave what the sequential Invoke gave and no call saw what the consumer of another did to its result
+	Burst string `json:"burst,omitempty"`
+	// a SECOND successor of the same predecessors (execution 1 only; not part of key()): a workflow compiled with one more
+	// node "tap" of type T that takes, from every predecessor, the LAST mapping of the declaration only (a sub-set of an
+	// accepted set, which Compile need not accept: "compile"); what the tap was handed in Invoke / Stream, and what the first successor got beside it
+	TapInv     string `json:"tap_invoke,omitempty"` // "" (not run) | ok | err | panic | hang | compile
+	TapInvVals []*V   `json:"tap_invoke_vals,omitempty"`
+	TapMainInv string `json:"tap_main_invoke,omitempty"`
+	TapStr     string `json:"tap_stream,omitempty"`
+	TapStrVals []*V   `json:"tap_stream_vals,omitempty"`
+	TapMainStr string `json:"tap_main_stream,omitempty"`
+	TapMsg     string `json:"tap_msg,omitempty"`
 	// Stream with an ordinary (invokable) successor node: the concatenation of the converted chunks
 	Concat string `json:"concat,omitempty"` // "" (not run) | ok | err | panic | hang
 	ConVal *V     `json:"concat_val,omitempty"`
@@ -427,7 +473,7 @@ func sortVs(vs []*V) []*V {
 	return out
 }
 
-func execute(c *Case) *outcome {
+func execute(c *Case, rep int) *outcome {
 	o := &outcome{Invoke: "none", Stream: "none"}
 	th, ok := tgtHandles[c.T]
 	if !ok {
@@ -435,8 +481,10 @@ func execute(c *Case) *outcome {
 	}
 	// fresh source values for every execution, and a pristine twin for the "source unmodified" oracle
 	// inv / twin: the values of the first request; inv2 / twin2: of the second (same runnable)
-	type built struct{ inv, twin, inv2, twin2 []reflect.Value }
 	cur := new(int) // the request being served
+	var tapMu sync.Mutex
+	var tapRec []reflect.Value
+	withTap := false // the next add() also declares the second successor
 	mk := func(streaming bool) ([]built, func(wf wfAPI, succ *compose.WorkflowNode)) {
 		bs := make([]built, len(c.Decls)+1)
 		for _, s := range c.Statics {
@@ -493,6 +541,25 @@ func execute(c *Case) *outcome {
 				} else {
 					succ.AddInput(fmt.Sprintf("n%d", i), fms...)
 				}
+			}
+			if withTap {
+				tap := wf.AddLambdaNode("tap", th.tap(func(v reflect.Value) {
+					tapMu.Lock()
+					tapRec = append(tapRec, v)
+					tapMu.Unlock()
+				}))
+				for i, ms := range tapMaps(c) {
+					var fms []*compose.FieldMapping
+					for _, m := range ms {
+						fms = append(fms, fieldMapping(m, c.Short))
+					}
+					if c.Decls[i].FromStart {
+						tap.AddInput(compose.START, fms...)
+					} else {
+						tap.AddInput(fmt.Sprintf("n%d", i), fms...)
+					}
+				}
+				wf.End().AddDependency("tap")
 			}
 			if len(c.Decls) == 0 {
 				// the successor's input consists of static values only: it still needs a control predecessor
@@ -566,7 +633,11 @@ func execute(c *Case) *outcome {
 		if !o.InvVal.knownSyms() {
 			o.Invoke, o.InvMsg, o.InvVal = "garbage", "result with keys outside the case: "+o.InvVal.String(), nil
 		}
+		// the successor owns its input: everything in it that is not part of a predecessor's output / a static
+		// value is used as scratch space before the next request
+		scribbleResult(rv, sharedOf(bsI))
 	}
+	hung1 := hung
 	if c.second() && !hung {
 		// the second request, served by the same compiled runnable
 		*cur = 1
@@ -583,10 +654,156 @@ func execute(c *Case) *outcome {
 			if !o.InvVal2.knownSyms() {
 				o.Invoke2, o.InvMsg2, o.InvVal2 = "garbage", "result with keys outside the case: "+o.InvVal2.String(), nil
 			}
+			scribbleResult(rv, sharedOf(bsI))
 		}
 		*cur = 0
+		hung1 = hung1 || hung
+	}
+	if !hung1 && (o.Invoke == "ok" || o.Invoke == "err") {
+		// the first request once more, on the same runnable: what it yields depends on its inputs alone
+		p, hung := withWatchdog(func() { rv, rerr = fns.invoke(startVal(bsI)) })
+		switch {
+		case hung:
+			o.Rerun = "hang"
+		case p != nil:
+			o.Rerun, o.RerunMsg = "panic", firstLine(fmt.Sprint(p))
+		case rerr != nil:
+			o.Rerun, o.RerunMsg = "err", firstLine(strings.ReplaceAll(rerr.Error(), "\n", " | "))
+		default:
+			o.Rerun, o.RerunVal = "ok", render(rv)
+		}
 	}
 	checkSrc(bsI, "invoke")
+	if rep == 0 && !hung1 && (o.Invoke == "ok" || o.Invoke == "err") {
+		// concurrent first requests on a freshly compiled runnable: each gives what the sequential Invoke gave, and
+		// what the consumer of one result does to it does not show in the others
+		bsB, addB := mk(false)
+		var fnsB *runFns
+		if p, hung := withWatchdog(func() { fnsB, cerr = th.build(c.Mid, false, c.MidGraph, addB) }); p != nil || hung || cerr != nil {
+			o.Burst = "compile for the concurrent requests differs: " + firstLine(fmt.Sprint(p, cerr))
+		} else {
+			const nb = 4
+			type one struct {
+				rv  reflect.Value
+				err error
+				p   any
+			}
+			res := make([]one, nb)
+			in := startVal(bsB)
+			_, hung := withWatchdog(func() {
+				start := make(chan struct{})
+				var wg sync.WaitGroup
+				for k := 0; k < nb; k++ {
+					wg.Add(1)
+					go func(k int) {
+						defer wg.Done()
+						<-start
+						res[k].p = lib.Recover(func() { res[k].rv, res[k].err = fnsB.invoke(in) })
+					}(k)
+				}
+				close(start)
+				wg.Wait()
+			})
+			if !hung {
+				want := o.Invoke
+				if o.InvVal != nil {
+					want += "=" + o.InvVal.String()
+				}
+				show := func(r one) string {
+					switch {
+					case r.p != nil:
+						return "panic " + firstLine(fmt.Sprint(r.p))
+					case r.err != nil:
+						return "err"
+					}
+					return "ok=" + render(r.rv).String()
+				}
+				for k := range res {
+					if got := show(res[k]); got != want && o.Burst == "" {
+						o.Burst = fmt.Sprintf("call %d of %d concurrent first requests gave %s, the sequential request %s", k, nb, got, want)
+					}
+				}
+				if o.Burst == "" && o.Invoke == "ok" {
+					scribbleResult(res[0].rv, sharedOf(bsB))
+					for k := 1; k < nb; k++ {
+						if got := show(res[k]); got != want {
+							o.Burst = fmt.Sprintf("after the consumer of call 0 modified its input, the input handed over by the concurrent call %d reads %s (was %s)", k, got, want)
+							break
+						}
+					}
+				}
+				checkSrc(bsB, "concurrent invoke")
+			}
+		}
+	}
+
+	if rep == 1 && len(c.Decls) > 0 && !hung1 && o.Invoke == "ok" {
+		// a second successor of the same predecessors, with mappings of its own
+		renderAll := func(vs []reflect.Value) []*V {
+			var out []*V
+			for _, v := range vs {
+				out = append(out, render(v))
+			}
+			return sortVs(out)
+		}
+		withTap = true
+		bsT, addT := mk(false)
+		var fnsT *runFns
+		p, hung := withWatchdog(func() { fnsT, cerr = th.build(c.Mid, false, c.MidGraph, addT) })
+		withTap = false
+		if p != nil || hung || cerr != nil {
+			o.TapInv, o.TapMsg = "compile", firstLine(fmt.Sprint(p, cerr))
+		} else {
+			tapRec = nil
+			p, hung := withWatchdog(func() { rv, rerr = fnsT.invoke(startVal(bsT)) })
+			switch {
+			case hung:
+				o.TapInv = "hang"
+			case p != nil:
+				o.TapInv, o.TapMsg = "panic", firstLine(fmt.Sprint(p))
+			case rerr != nil:
+				o.TapInv, o.TapMsg = "err", firstLine(strings.ReplaceAll(rerr.Error(), "\n", " | "))
+			default:
+				tapMu.Lock()
+				o.TapInv, o.TapInvVals, o.TapMainInv = "ok", renderAll(tapRec), "ok="+render(rv).String()
+				tapMu.Unlock()
+			}
+			checkSrc(bsT, "invoke with a second successor")
+			if o.TapInv == "ok" && o.Stream != "" {
+				withTap = true
+				bsU, addU := mk(true)
+				var fnsU *runFns
+				p, hung := withWatchdog(func() { fnsU, cerr = th.build(c.Mid, false, c.MidGraph, addU) })
+				withTap = false
+				if p != nil || hung || cerr != nil {
+					o.TapStr, o.TapMsg = "compile", firstLine(fmt.Sprint(p, cerr))
+				} else {
+					tapMu.Lock()
+					tapRec = nil
+					tapMu.Unlock()
+					var rvs []reflect.Value
+					p, hung := withWatchdog(func() { rvs, rerr = fnsU.stream(startVal(bsU)) })
+					switch {
+					case hung:
+						o.TapStr = "hang"
+					case p != nil:
+						o.TapStr, o.TapMsg = "panic", firstLine(fmt.Sprint(p))
+					case rerr != nil:
+						o.TapStr, o.TapMsg = "err", firstLine(strings.ReplaceAll(rerr.Error(), "\n", " | "))
+					default:
+						tapMu.Lock()
+						o.TapStr, o.TapStrVals = "ok", renderAll(tapRec)
+						tapMu.Unlock()
+						o.TapMainStr = "ok"
+						for _, v := range renderAll(rvs) {
+							o.TapMainStr += ";" + v.String()
+						}
+					}
+					checkSrc(bsU, "stream with a second successor")
+				}
+			}
+		}
+	}
 
 	// --- Stream on a separately compiled workflow (sources stream their chunks)
 	bsS, addS := mk(true)
@@ -615,6 +832,12 @@ func execute(c *Case) *outcome {
 				o.Stream, o.StrMsg, o.StrVals = "garbage", "chunk with keys outside the case: "+v.String(), nil
 				break
 			}
+		}
+		// the consumer of the chunks uses them as scratch space: Collect, Transform and the second Stream on the same
+		// runnable must not see that
+		shared := sharedOf(bsS)
+		for _, v := range rvs {
+			scribbleResult(v, shared)
 		}
 	}
 	if !hung {
@@ -711,6 +934,201 @@ func execute(c *Case) *outcome {
 	return o
 }
 
+// the mappings of the second successor ("tap"): of every declaration the last mapping only (a plain declaration stays plain)
+func tapMaps(c *Case) [][]Mapping {
+	out := make([][]Mapping, len(c.Decls))
+	for i := range c.Decls {
+		if ms := c.Decls[i].Maps; len(ms) > 0 {
+			out[i] = []Mapping{ms[len(ms)-1]}
+		}
+	}
+	return out
+}
+
+// ------------------------------------------------------------------ the successor owns its input
+
+// a heap object: a pointer target or a map
+type objKey struct {
+	t reflect.Type
+	p uintptr
+}
+
+func collectObjs(rv reflect.Value, set map[objKey]bool) {
+	if !rv.IsValid() {
+		return
+	}
+	switch rv.Kind() {
+	case reflect.Interface:
+		if !rv.IsNil() {
+			collectObjs(rv.Elem(), set)
+		}
+	case reflect.Ptr:
+		if rv.IsNil() {
+			return
+		}
+		k := objKey{rv.Type(), rv.Pointer()}
+		if set[k] {
+			return
+		}
+		set[k] = true
+		collectObjs(rv.Elem(), set)
+	case reflect.Map:
+		if rv.IsNil() {
+			return
+		}
+		k := objKey{rv.Type(), rv.Pointer()}
+		if set[k] {
+			return
+		}
+		set[k] = true
+		it := rv.MapRange()
+		for it.Next() {
+			collectObjs(it.Value(), set)
+		}
+	case reflect.Slice:
+		if !rv.IsNil() {
+			set[objKey{rv.Type(), rv.Pointer()}] = true
+		}
+	case reflect.Struct:
+		for i := 0; i < rv.NumField(); i++ {
+			collectObjs(rv.Field(i), set)
+		}
+	}
+}
+
+// the objects that belong to the predecessors' outputs (both requests) and to the static values: a mapped value is
+// handed over as it is, so the successor's input legitimately shares them
+func sharedOf(bs []built) map[objKey]bool {
+	set := map[objKey]bool{}
+	for _, b := range bs {
+		for _, v := range b.all() {
+			collectObjs(v, set)
+		}
+	}
+	return set
+}
+
+// what a node may do to the input it was handed: every object of it that was made for this request (the pointer targets
+// and maps instantiated on the way to the mapped slots) is used as scratch space — leaves changed, unmapped interface
+// slots filled, one more key in every map. The predecessors' own objects are left alone.
+func scribbleResult(rv reflect.Value, shared map[objKey]bool) {
+	defer func() { _ = recover() }() // (a value reflection cannot write to is left as it is)
+	scribble(rv, shared, map[objKey]bool{})
+}
+
+func scribbled(t reflect.Type) (reflect.Value, bool) {
+	switch t.Kind() {
+	case reflect.Int:
+		return reflect.ValueOf(4242).Convert(t), true
+	case reflect.String:
+		return reflect.ValueOf("scribble").Convert(t), true
+	case reflect.Interface:
+		if t.NumMethod() == 0 {
+			v := reflect.New(t).Elem()
+			v.Set(reflect.ValueOf(4242))
+			return v, true
+		}
+	case reflect.Struct:
+		v := reflect.New(t).Elem()
+		for i := 0; i < t.NumField(); i++ {
+			if f := v.Field(i); f.CanSet() {
+				if x, ok := scribbled(f.Type()); ok && f.Kind() != reflect.Struct {
+					f.Set(x)
+				}
+			}
+		}
+		return v, true
+	}
+	return reflect.Zero(t), t.Kind() == reflect.Ptr || t.Kind() == reflect.Map
+}
+
+func scribble(rv reflect.Value, shared, seen map[objKey]bool) {
+	if !rv.IsValid() {
+		return
+	}
+	switch rv.Kind() {
+	case reflect.Int:
+		if rv.CanSet() {
+			rv.SetInt(rv.Int() + 1000)
+		}
+	case reflect.String:
+		if rv.CanSet() {
+			rv.SetString(rv.String() + "~")
+		}
+	case reflect.Interface:
+		if rv.IsNil() {
+			if rv.CanSet() && rv.Type().NumMethod() == 0 {
+				rv.Set(reflect.ValueOf(4242))
+			}
+			return
+		}
+		switch e := rv.Elem(); e.Kind() {
+		case reflect.Int:
+			if rv.CanSet() {
+				rv.Set(reflect.ValueOf(int(e.Int()) + 1000).Convert(e.Type()))
+			}
+		case reflect.String:
+			if rv.CanSet() {
+				rv.Set(reflect.ValueOf(e.String() + "~").Convert(e.Type()))
+			}
+		default:
+			scribble(e, shared, seen)
+		}
+	case reflect.Struct:
+		for i := 0; i < rv.NumField(); i++ {
+			if rv.Type().Field(i).IsExported() {
+				scribble(rv.Field(i), shared, seen)
+			}
+		}
+	case reflect.Ptr:
+		if rv.IsNil() {
+			return
+		}
+		k := objKey{rv.Type(), rv.Pointer()}
+		if shared[k] || seen[k] {
+			return
+		}
+		seen[k] = true
+		scribble(rv.Elem(), shared, seen)
+	case reflect.Map:
+		if rv.IsNil() {
+			return
+		}
+		k := objKey{rv.Type(), rv.Pointer()}
+		if shared[k] || seen[k] {
+			return
+		}
+		seen[k] = true
+		et := rv.Type().Elem()
+		for _, mk := range rv.MapKeys() {
+			cp := reflect.New(et).Elem()
+			cp.Set(rv.MapIndex(mk))
+			scribble(cp, shared, seen)
+			rv.SetMapIndex(mk, cp)
+		}
+		// one more key (a symbol of the table, so that the value can still be rendered)
+		if x, ok := scribbled(et); ok {
+			if rv.Type().Key().Kind() == reflect.String {
+				for _, name := range []string{"nope", "c", "b", "a", "j", "k"} {
+					kv := reflect.ValueOf(name).Convert(rv.Type().Key())
+					if !rv.MapIndex(kv).IsValid() {
+						rv.SetMapIndex(kv, x)
+						break
+					}
+				}
+			} else if rv.Type().Key().Kind() == reflect.Int {
+				for n := 7; n < 12; n++ {
+					kv := reflect.ValueOf(n).Convert(rv.Type().Key())
+					if !rv.MapIndex(kv).IsValid() {
+						rv.SetMapIndex(kv, x)
+						break
+					}
+				}
+			}
+		}
+	}
+}
+
 func (o *outcome) key() string {
 	var b strings.Builder
 	b.WriteString(o.Compile + "|" + o.Invoke)
@@ -736,6 +1154,10 @@ func (o *outcome) key() string {
 	b.WriteString("|" + o.Stream2)
 	for _, v := range o.StrVals2 {
 		b.WriteString(";" + v.String())
+	}
+	b.WriteString("|" + o.Rerun)
+	if o.RerunVal != nil {
+		b.WriteString("=" + o.RerunVal.String())
 	}
 	return b.String()
 }
@@ -764,6 +1186,9 @@ const unitReps = 16
 
 // distinct outcomes of unitReps calls of convertTo on fresh copies of the values
 func executeUnit(c *Case) []*unitOutcome {
+	if !whiteBox {
+		return executeUnitBlackBox(c)
+	}
 	T := goType(c.T)
 	seen := map[string]bool{}
 	var outs []*unitOutcome
@@ -777,11 +1202,11 @@ func executeUnit(c *Case) []*unitOutcome {
 			if vals[i].IsValid() {
 				v = vals[i].Interface()
 			}
-			m[strings.Join(s.To, compose.VerifC15PathSeparator)] = v
+			m[strings.Join(s.To, hookPathSeparator)] = v
 		}
 		o := &unitOutcome{}
 		var out any
-		p, hung := withWatchdog(func() { out, _ = compose.VerifC15ConvertTo(m, T) })
+		p, hung := withWatchdog(func() { out, _ = hookConvertTo(m, T) })
 		switch {
 		case hung:
 			o.Res, o.Msg = "panic", "hang"
@@ -807,6 +1232,29 @@ func executeUnit(c *Case) []*unitOutcome {
 	for i := 1; i < len(outs); i++ {
 		for j := i; j > 0 && outs[j].key() < outs[j-1].key(); j-- {
 			outs[j], outs[j-1] = outs[j-1], outs[j]
+		}
+	}
+	return outs
+}
+
+// the black-box twin of a valid overlap-free unit case: the keys as static values of a node without mapped input
+// (workflow.go hands the map of static values to the same converter), a few executions
+func executeUnitBlackBox(c *Case) []*unitOutcome {
+	wc := &Case{T: c.T, Statics: c.Unit, Short: c.Short}
+	seen := map[string]bool{}
+	var outs []*unitOutcome
+	for rep := 0; rep < 4; rep++ {
+		o := execute(wc, 2)
+		u := &unitOutcome{SrcMod: len(o.SrcMod) > 0}
+		switch {
+		case o.Invoke == "ok":
+			u.Res, u.Val = "ok", o.InvVal
+		default:
+			u.Res, u.Msg = "panic", o.Compile+" "+o.CompMsg+" "+o.Invoke+" "+o.InvMsg
+		}
+		if !seen[u.key()] {
+			seen[u.key()] = true
+			outs = append(outs, u)
 		}
 	}
 	return outs
